@@ -21,16 +21,17 @@ theorem passLoop_restart (hrefl : ∀ a : α, (a == a) = true) (P : Params α) (
   | cons it rest ih =>
     intro b lb nt ovf hdrop hI h
     simp only [passLoop] at h
-    cases h1 : itemStep P items lineW tol b (prevOf items b) it rest lb with
+    obtain ⟨hIc, hSc⟩ := clear_inv P items lineW tol b lb hI
+    cases h1 : itemStep P items lineW tol b (prevOf items b) it rest (clearStale P (prevOf items b) lb) with
     | none => rw [h1] at h; cases h
     | some lb1 =>
       rw [h1] at h; simp only at h
-      cases h2 : drastic tol b lb1 with
+      cases h2 : drastic P tol b it rest lb1 with
       | none =>
         rw [h2] at h; simp only at h
         injection h with hnt _
-        obtain ⟨lbm, hm, _, _, _, ht1, _⟩ := itemStep_cases P items lineW tol b it rest lb lb1 hdrop h1
-        have M := mid_of_inv P items lineW tol b it rest lb lbm hdrop hI hm
+        obtain ⟨lbm, hm, _, _, _, ht1, _⟩ := itemStep_cases P items lineW tol b it rest _ lb1 hdrop h1
+        have M := mid_of_inv P items lineW tol b it rest _ lbm hdrop hIc hSc hm
         constructor
         · unfold drastic at h2
           cases hact : lb1.act with
@@ -50,7 +51,7 @@ theorem passLoop_restart (hrefl : ∀ a : α, (a == a) = true) (P : Params α) (
         have hI2 := step_inv hrefl P items lineW tol b it rest lb lb1 lb2 hdrop hI h1 h2
         have hprev : prevOf items (b + 1) = some it := drop_getElem? hdrop
         rw [← hprev] at h
-        exact ih (b + 1) lb2 nt ovf (drop_succ_of_drop hdrop) hI2 h
+        exact ih (b + 1) (addGlue it lb2) nt ovf (drop_succ_of_drop hdrop) hI2 h
 
 /-! ### the finite set of ratios -/
 
@@ -215,10 +216,10 @@ theorem passLoop_ne_panic (P : Params α) (items : List (Item α)) (lineW : α) 
   | cons it rest ih =>
     intro b prev lb hdrop
     simp only [passLoop]
-    cases h1 : itemStep P items lineW tol b prev it rest lb with
+    cases h1 : itemStep P items lineW tol b prev it rest (clearStale P prev lb) with
     | none =>
       exfalso
-      obtain ⟨hg, hr⟩ := itemStep_none P items lineW tol b prev it rest lb h1
+      obtain ⟨hg, hr⟩ := itemStep_none P items lineW tol b prev it rest _ h1
       have hlt := hnp b it (drop_getElem? hdrop) hg
       have h2 := drop_succ_of_drop hdrop
       rw [hr] at h2
@@ -226,9 +227,9 @@ theorem passLoop_ne_panic (P : Params α) (items : List (Item α)) (lineW : α) 
       omega
     | some lb1 =>
       simp only
-      cases h2 : drastic tol b lb1 with
+      cases h2 : drastic P tol b it rest lb1 with
       | none => simp
-      | some lb2 => simp only; exact ih (b + 1) (some it) lb2 (drop_succ_of_drop hdrop)
+      | some lb2 => simp only; exact ih (b + 1) (some it) _ (drop_succ_of_drop hdrop)
 
 theorem linebreakFuel_ne_panic (P : Params α) (items : List (Item α)) (lineW : α) (loose : Int)
     (hnp : ∀ b it, items[b]? = some it → it.ty = Ty.glue → b + 1 < items.length) :
